@@ -230,7 +230,10 @@ void BpEndecodeArray(struct BpArrayDescriptor *descriptor,
 
     // Skip redundant bits if decoding.
     if (descriptor->extensible && (!ctx->is_encode)) {
-        int ito = i + (((int)ahead) * descriptor->cap);
+        // The ahead flag (16 bits) is the opponent's capacity, skip the
+        // elements beyond our capacity by the size of a decoded element.
+        int element_nbits = (ctx->i - i - 16) / descriptor->cap;
+        int ito = i + 16 + (((int)ahead) * element_nbits);
         if (ito >= ctx->i) {
             ctx->i = ito;
         }
